@@ -65,7 +65,12 @@ func VerifC18_TrafficRoutingFinalizer() {
 	verifrt.Stub(stubDoRouting, func(m *trafficrouting.Manager, c *trafficrouting.TrafficRoutingContext) (bool, error) {
 		return verifrt.Bool("routing.done"), nil
 	})
-	verifrt.Stub(stubInitialize, func(m *trafficrouting.Manager, c *trafficrouting.TrafficRoutingContext) error { return nil })
+	verifrt.Stub(stubInitialize, func(m *trafficrouting.Manager, c *trafficrouting.TrafficRoutingContext) error {
+		if verifrt.Bool("initialize.fails") {
+			return c18Err
+		}
+		return nil
+	})
 	r := &TrafficRoutingReconciler{Client: cli, trafficRoutingManager: trafficrouting.NewTrafficRoutingManager(cli)}
 	_, err := r.Reconcile(context.TODO(), ctrl.Request{NamespacedName: types.NamespacedName{Namespace: "ns", Name: "tr"}})
 	removed := false
@@ -78,6 +83,13 @@ func VerifC18_TrafficRoutingFinalizer() {
 		verifrt.Cover("finalizer-removed")
 		verifrt.Assert(deleting, "C18.trafficrouting.finalizerRemovedOnlyWhenDeleting")
 		verifrt.Assert(finalisingCalled && finalisingDone, "C18.trafficrouting.finalizerRemovedOnlyAfterCleanupDone")
+	}
+	// a TrafficRouting that is being deleted is cleaned up in every reconcile, whatever phase it was in when the
+	// deletion arrived — also one that never got past its initialisation (phase still empty): otherwise the Terminating
+	// arm, the only place its finalizer is removed, is never reached and the deletion is blocked for ever
+	if deleting && hasOwn && err == nil {
+		verifrt.Cover("deleting")
+		verifrt.Assert(finalisingCalled, "C18.trafficrouting.deletionAlwaysReachesTheCleanup")
 	}
 	// conversely: cleanup complete and no API fault => the finalizer is removed in this reconcile
 	if deleting && hasOwn && finalisingCalled && finalisingDone && err == nil {
